@@ -496,12 +496,6 @@ func dynamicPhase(o *hx.Opts, res *hx.Result, replayEp *episode) int {
 		if cr.CallsStarted != cr.CallsFinished {
 			cr.Violations = append(cr.Violations, map[string]string{"kind": "calls-unfinished", "what": fmt.Sprintf("%d calls started, %d finished", cr.CallsStarted, cr.CallsFinished)})
 		}
-		l0Differs := false
-		for _, v := range cr.Violations {
-			if v["kind"] == "restore-mismatch" && strings.Contains(v["what"], "alone restore to a different image than the replica's restore plan (which equals the source)") {
-				l0Differs = true
-			}
-		}
 		for _, v := range cr.Violations {
 			failures++
 			sig := "C12/stress/" + v["kind"]
@@ -510,11 +504,6 @@ func dynamicPhase(o *hx.Opts, res *hx.Result, replayEp *episode) int {
 				// consequences of the object-lifecycle findings (KNOWN_FINDINGS.json); the same kinds are
 				// unmasked in the core profile, and deadlock / panic / regstorm / close-hung are never masked
 				sig = "C12/lifecycle/" + v["kind"]
-			case v["kind"] == "restore-mismatch" && l0Differs && strings.Contains(v["what"], "alone restore to a different image"):
-				// the restore (planner) equals the source, but the level-0 files alone compose to a different page
-				sig = "C12/stress/l0-chain-differs-from-plan"
-			case v["kind"] == "snapshot-content-mismatch" && l0Differs && strings.Contains(v["what"], "differs from the state composed from L0 files"):
-				sig = "C12/stress/snapshot-vs-l0-chain-when-l0-chain-differs"
 			case v["kind"] == "snapshot-content-mismatch" && strings.Contains(v["detail"], "= TXID+1"):
 				// the snapshot holds pages of the NEXT transaction (the oracle's diagnostic found them at TXID+1)
 				sig = "C12/stress/snapshot-holds-pages-of-next-txid"
